@@ -42,6 +42,7 @@ def step : List String → String
     | _, _, _ => "bad-op"
   | "fund" :: _ => "ok"
   | "fundpool" :: _ => "ok"
+  | "pooldust" :: _ => "skip"
   | ["sendoff"] => "skip"
   | ["sendon"] => "skip"
   | "creset" :: _ => "ok"
